@@ -193,6 +193,19 @@ def reqInvalid (r : OReq) : Bool :=
   optBad r.req.flatTail 0 || optBad r.req.numLeaders 0 || optBad r.req.maxIterations 0 ||
   optBad r.req.minIterations 1 || optBad r.req.checkFreq 1
 
+/-- the documented schedule, run by the driver on the prepared effective inputs, does not stop within the horizon
+    (or meets tied scores): an implementation that does not return either is then the rounding-floor family
+    (known finding under C15), not a violation of what C02/C03/C13/C14 say about returned results. -/
+def oapiSpecNeverStops (s : Oapi.Store Float) (req : Oapi.ComputeReq Float) : Bool :=
+  match Oapi.prepare constsF s req with
+  | some eff =>
+    let bounded := match eff.opts.maxIterations with | some m => m > 0 | none => false
+    let sp := specRun { c := eff.c, p := eff.p, a := eff.a, e := eff.e, t0 := eff.opts.t0, flat := eff.opts.flatTail,
+                        leaders := eff.opts.numLeaders, maxI := eff.opts.maxIterations, minI := eff.opts.minIterations,
+                        freq := eff.opts.checkFreq } fuelCap
+    !bounded && (!sp.endedByCriteria || sp.tied)
+  | none => false
+
 /-- With a flat-tail requirement the STOP iteration depends on the rankings; when scores tie at a checked
     iterate Go's unstable sort may order them differently from the model's, so the run may legitimately stop at
     another iteration and return another iterate.  `true` = this request is such a run. -/
@@ -216,7 +229,16 @@ def judgeOapi (prop : String) : P Verdict := do
   let s := storeOf r.pre
   let model := handleComputeWithStats fuelCap constsF s r.req
   match resp with
-  | none => pure { prop := false, corr := false, msg := s!"implementation {raw}" }
+  | none =>
+    if raw == "timeout" && oapiSpecNeverStops s r.req then
+      if prop == "C15" then
+        pure { prop := false, corr := false,
+               msg := "implementation timeout [finding:C15/compute/stop-criterion-never-met-in-floats] (the documented schedule does not stop within the horizon either)" }
+      else
+        pure { prop := true, corr := true,
+               msg := "implementation did not return within the watchdog; the documented schedule does not stop within the horizon either (known finding under C15)" }
+    else
+      pure { prop := false, corr := false, msg := s!"implementation {raw}" }
   | some o =>
     -- CORR: status and scores vs model@Float
     let (mStatus, mScores, mStats) : Nat × Option (Vec Float) × Option (FlatTailStats Float) := match model with
@@ -382,12 +404,15 @@ def judgeStoreHist : P Verdict := do
   pure { prop := p, corr := c, bit := some (p && c), msg := msg }
 
 def judgeIsolate : P Verdict := do
-  let _r ← oreq
+  let r ← oreq
   expect "|"
   let getSame ← flag
   let storedEqInline ← flag
   let status ← tok
-  let ok := getSame && storedEqInline && status != "panic" && status != "timeout"
+  -- a compute that does not return because the documented schedule never stops in floats (known finding under
+  -- C15) says nothing about isolation: the stored matrix must still be unchanged, which `getSame` reports
+  let excused := status == "timeout" && oapiSpecNeverStops (storeOf r.pre) r.req
+  let ok := getSame && ((storedEqInline && status != "panic" && status != "timeout") || excused)
   pure { prop := ok, corr := ok, bit := none,
          msg := if ok then "" else s!"GET before/after identical={getSame} stored==inline scores={storedEqInline} status={status}" }
 
